@@ -59,8 +59,39 @@ def families(tier):
           ('table', execlib.fam_table(tier))]
 
 
+def abort_sweep(chk):
+  """"an abort gives ABORTED": one abort (other thread / simulated SIGINT) at every scheduling point of
+  whole runs that would otherwise pass - the schedule sweep of the C04 check (AbortHandshake.tla), judged
+  here on the outcome only: an abort call that returned before finalization began never ends PASS"""
+  import multiprocessing as mp
+  import sys
+  from checks import c04
+  sys.argv = sys.argv[:1]
+  from vf import build, explore  # noqa: F401
+  quick = chk.tier == 'quick'
+  jobs = []
+  for prog_name, source in (('plain', 'thread'), ('group', 'thread'), ('plain', 'sigint'), ('start', 'thread')):
+    roots = explore.split_roots(c04.make_run(prog_name, source, 1), 1, 6)
+    per = max(50, (3000 if quick else 30000) // max(1, len(roots)))
+    for r in roots:
+      jobs.append((prog_name, source, 1, 1, r, per))
+  with mp.Pool(14, maxtasksperchild=8) as pool:
+    outs = pool.map(c04.explore_job, jobs, chunksize=1)
+  n = 0
+  for o in outs:
+    n += o['n']
+    for sig, det in o['bad']:
+      if 'abort returned before finalization but the outcome is' in sig:
+        chk.violation('outcome: %s (an abort gives ABORTED)' % sig, det)
+  chk.traces += n
+  chk.nontrivial += n
+  chk.tlc_runs.append(dict(name='abort sweep (single abort at every scheduling point), outcome clause', schedules=n))
+  chk.log('%d schedules with a single abort judged on the outcome' % n)
+
+
 def main(chk):
   execlib.run_families(chk, families(chk.tier), OWNED)
+  abort_sweep(chk)
   chk.cov['rule'] = ('every complete scenario (program x per-invocation behaviours) TLC enumerates from '
                      'Executor.tla for the listed families; non-trivial = at least two body invocations '
                      'or one phase record; distinct because each scenario is a distinct TLC state path')
